@@ -74,31 +74,86 @@ Vals2 ==
 
 Vals == ScalarVals \cup ClassVals \cup {FnVal} \cup Vals1 \cup Vals2
 
+(* ---- function values with a known signature against Callable[[int]*n, int] ---- *)
+(* The signature dimensions are the ones argument binding (and pytype's matcher) looks at; every *)
+(* parameter is an int, the result is an int.  Three forms of the same signature: an annotated   *)
+(* def, a lambda, a bound method (self already bound).                                           *)
+MaxN == 3
+IntSeq(n) == [j \in 1..n |-> Cls("int")]
+CallSig(n) == <<"callsig", "", IntSeq(n + 1)>>        \* Callable[[int]*n, int]
+Sig(f, m, o, s, kr, kd, kw) ==
+  [form |-> f, mand |-> m, opt |-> o, star |-> s, kwreq |-> kr, kwdef |-> kd, kwargs |-> kw]
+DefSigs == {Sig("def", m, o, s, kr, kd, kw) : m \in 0..2, o \in 0..1, s \in BOOLEAN,
+                                               kr \in 0..1, kd \in 0..2, kw \in BOOLEAN}
+LambdaSigs == {Sig("lambda", m, o, s, kr, kd, FALSE) : m \in 0..2, o \in 0..1, s \in BOOLEAN,
+                                                        kr \in 0..1, kd \in 0..1}
+MethodSigs == {Sig("method", m, 0, s, kr, kd, kw) : m \in 0..2, s \in BOOLEAN, kr \in 0..1,
+                                                     kd \in 0..1, kw \in BOOLEAN}
+FnVals == {<<"$def", g>> : g \in DefSigs \cup LambdaSigs \cup MethodSigs}
+(* the function values that are also put against annotations that are not Callable[[..], ..] *)
+FnValsSmall == {<<"$def", g>> : g \in {h \in DefSigs \cup LambdaSigs \cup MethodSigs :
+                                          h.mand = 1 /\ h.opt = 0 /\ ~h.kwargs /\ h.kwreq = 0}}
+
+SigAnns == {CallSig(n) : n \in 0..MaxN} \cup {U(CallSig(1), TNone), U(Cls("str"), CallSig(2))}
+FnOtherAnns == {TAny, Cls("object"), Cls("int"), <<"callable", "", <<>>>>, U(Cls("int"), TNone),
+                Gen("list", <<Cls("int")>>), <<"type", "", <<Cls("A")>>>>}
+AllAnns == Anns \cup SigAnns
+(* the values enumerated against an annotation *)
+ValsFor(t) == IF t \in SigAnns THEN Vals \cup FnVals
+              ELSE IF t \in FnOtherAnns THEN Vals \cup FnValsSmall ELSE Vals
+AllVals == Vals \cup FnVals
+
 Sites == {"arg", "ret", "assign"}
 
 -----------------------------------------------------------------------------
 (* The walk: one state per annotation; the three enforcement sites are the actions; the        *)
 (* post-state carries what the specification expects pytype to report.                         *)
 VARIABLES k, site, expect
-AnnSeq == SetToSeq(Anns)
+AnnSeq == SetToSeq(AllAnns)
 
-Init == k = 1 /\ site = "arg" /\ expect = {v \in Vals : ~Admits(AnnSeq[1], v)}
+Init == k = 1 /\ site = "arg" /\ expect = {v \in ValsFor(AnnSeq[1]) : ~Admits(AnnSeq[1], v)}
 Enforce(s) == /\ site' = s
               /\ UNCHANGED k
-              /\ expect' = {v \in Vals : ~Admits(AnnSeq[k], v)}
-NextAnn == /\ k < Cardinality(Anns)
+              /\ expect' = {v \in ValsFor(AnnSeq[k]) : ~Admits(AnnSeq[k], v)}
+NextAnn == /\ k < Cardinality(AllAnns)
            /\ k' = k + 1 /\ site' = "arg"
-           /\ expect' = {v \in Vals : ~Admits(AnnSeq[k + 1], v)}
+           /\ expect' = {v \in ValsFor(AnnSeq[k + 1]) : ~Admits(AnnSeq[k + 1], v)}
 Next == (\E s \in Sites : s # site /\ Enforce(s)) \/ NextAnn
 Spec == Init /\ [][Next]_<<k, site, expect>>
+
+(* laws of the function-value fragment (checked once, they do not depend on the walk) *)
+With(v, f, x) == <<"$def", [v[2] EXCEPT ![f] = x]>>
+FnLaws ==
+  /\ FnOtherAnns \subseteq Anns /\ \A t \in SigAnns : Understood(t)
+  /\ \A v \in FnVals :
+       /\ Admits(TAny, v) /\ Admits(Cls("object"), v) /\ Admits(<<"callable", "", <<>>>>, v)
+       /\ ~Admits(Cls("int"), v) /\ ~Admits(Gen("list", <<Cls("int")>>), v)
+       /\ \A n \in 0..MaxN :
+            LET a == Admits(CallSig(n), v) IN
+            \* keyword-only parameters with a default and **kwargs never matter
+            /\ \A kd \in 0..3 : Admits(CallSig(n), With(v, "kwdef", kd)) = a
+            /\ \A kw \in BOOLEAN : Admits(CallSig(n), With(v, "kwargs", kw)) = a
+            \* a keyword-only parameter without default makes the function uncallable positionally
+            /\ v[2].kwreq > 0 => ~a
+            \* one more mandatory positional parameter shifts the window by one
+            /\ Admits(CallSig(n + 1), With(v, "mand", v[2].mand + 1)) = a
+            \* the admitted arities form an interval starting at mand
+            /\ (a /\ n > v[2].mand) => Admits(CallSig(n - 1), v)
+            /\ (v[2].kwreq = 0 /\ n = v[2].mand) => a
+            /\ n < v[2].mand => ~a
+            \* the documented deviations only ever widen what is accepted
+            /\ \A d \in {"kwonlypos", "kwargsvar"} : a => AdmitsD(CallSig(n), v, {d})
+            /\ Admits(U(CallSig(n), TNone), v) = a
+  /\ \A n \in 0..MaxN : Admits(CallSig(n), FnVal) = (n = 1)
 
 (* laws that keep the oracle honest *)
 Laws ==
   LET t == AnnSeq[k] IN
   /\ Understood(t)
-  /\ \A v \in Vals : Admits(TAny, v) /\ Admits(Cls("object"), v)
-  /\ \A v \in Vals : Admits(t, v) => Admits(U(t, TNone), v) /\ Admits(U(Cls("C"), t), v)
-  /\ \A v \in Vals : Admits(U(t, TNone), v) <=> (Admits(t, v) \/ v = V("NoneType"))
+  /\ (k = 1 /\ site = "arg") => FnLaws
+  /\ \A v \in ValsFor(t) : Admits(TAny, v) /\ Admits(Cls("object"), v)
+  /\ \A v \in ValsFor(t) : Admits(t, v) => Admits(U(t, TNone), v) /\ Admits(U(Cls("C"), t), v)
+  /\ \A v \in ValsFor(t) : Admits(U(t, TNone), v) <=> (Admits(t, v) \/ v = V("NoneType"))
   /\ (t[1] = "cls" /\ t[2] = "int") => \A v \in Vals : Admits(t, v) => Admits(Cls("float"), v)
   /\ (t[1] = "gen" /\ t[2] = "list") => \A v \in Vals : Admits(t, v) => Admits(Gen("Sequence", t[3]), v)
   /\ (t[1] = "gen" /\ t[2] = "Sequence") => \A v \in Vals : Admits(t, v) => Admits(Gen("Iterable", t[3]), v)
@@ -109,5 +164,9 @@ NonTrivial == LET t == AnnSeq[k] IN
 
 ExportInv ==
   (Export /\ k = 1 /\ site = "arg") =>
-     PrintT(<<"CASE", ToJson([anns |-> Anns, vals |-> Vals])>>)
+     PrintT(<<"CASE", ToJson([anns |-> Anns, vals |-> Vals, siganns |-> SigAnns,
+                              fnother |-> FnOtherAnns, fnvals |-> FnVals, fnsmall |-> FnValsSmall,
+                              maxn |-> MaxN,
+                              \* the oracle's arity table, confirmed against CPython by the driver
+                              cancall |-> {<<v, n>> \in FnVals \X (0..MaxN) : Admits(CallSig(n), v)}])>>)
 =============================================================================
